@@ -189,7 +189,7 @@ def r1_replies(ctx, F, table):
                 if e == "*":
                     ctx.ok("R1-reply-provenance", "%s/%s" % (key, fld), "decided elsewhere (C12)", nontrivial=False)
                     continue
-                ctx.check("R1-reply-provenance", "%s/%s" % (key, fld), e == g,
+                ctx.check("R1-reply-provenance", "%s/%s" % (key, fld), vf.same_text(e, g),
                           "%s: reply field %s carries `%s`, the reply format requires `%s`" % (h.name, fld, g, e),
                           loc=c.loc(), detail=str(g)[:100])
             if len(ctx.samples) < 5 and o is not None:
